@@ -18,6 +18,7 @@ CONSTANTS
   Filter = "none"
   NoLockSet = {FALSE}
   TickInList = FALSE
+  WBFlock = TRUE
   POR = FALSE
   MaxHist = 100
 INVARIANTS Emit
